@@ -50,6 +50,7 @@ package nycttrips
 //@   ensures [other-routes-untouched] old(routeOf(trip)) != "M" && trip != nil ==> (forall k int :: 0 <= k && k < len(trip.StopTimeUpdate) ==> trip.StopTimeUpdate[k] == nil || *trip.StopTimeUpdate[k] == old(*trip.StopTimeUpdate[k]))
 //@   ensures [swap-on-route-M] old(routeOf(trip)) == "M" ==> (forall k int :: 0 <= k && k < len(trip.StopTimeUpdate) ==> trip.StopTimeUpdate[k] == nil || swappedStop(trip.StopTimeUpdate[k]))
 //@   ensures [list-untouched] trip != nil ==> trip.StopTimeUpdate == old(trip.StopTimeUpdate) && trip.Trip == old(trip.Trip) && trip.Vehicle == old(trip.Vehicle)
+//@   assigns each(trip.StopTimeUpdate).StopId
 //@   loop 1 invariant forall k int :: 0 <= k && k < $i ==> trip.StopTimeUpdate[k] == nil || swappedStop(trip.StopTimeUpdate[k])
 //@   loop 1 invariant forall k int :: $i <= k && k < len(trip.StopTimeUpdate) ==> trip.StopTimeUpdate[k] == nil || *trip.StopTimeUpdate[k] == old(*trip.StopTimeUpdate[k])
 //@   loop 1 invariant trip != nil && trip.StopTimeUpdate == old(trip.StopTimeUpdate) && trip.Trip == old(trip.Trip) && trip.Vehicle == old(trip.Vehicle) && buggyStationIDs != nil
@@ -81,6 +82,7 @@ package nycttrips
 //@ func (extension).UpdateVehicle
 //@   props C16 C05 C06
 //@   requires vehicle != nil
+//@   assigns vehicle.Vehicle, vehicle.Trip.DirectionId, vehicle.Trip.StartTime
 //@   ensures [transparent-without-extension] !hasExt(old(vehicle.Trip), "E_NyctTripDescriptor") ==> *vehicle == old(*vehicle) && (vehicle.Trip != nil ==> *vehicle.Trip == old(*vehicle.Trip))
 //@   ensures [direction] hasExt(old(vehicle.Trip), "E_NyctTripDescriptor") ==> vehicle.Trip.DirectionId != nil && *vehicle.Trip.DirectionId == (dirIsNorth(nyctDesc(vehicle.Trip)) ? 0 : 1)
 //@   ensures [train-id-is-vehicle-id] hasExt(old(vehicle.Trip), "E_NyctTripDescriptor") && isAssigned(nyctDesc(vehicle.Trip)) ==> vehicle.Vehicle != nil && vehicle.Vehicle.Id != nil && *vehicle.Vehicle.Id == trainID(nyctDesc(vehicle.Trip))
@@ -93,6 +95,7 @@ package nycttrips
 //@ func (extension).UpdateTrip
 //@   props C16 C05 C06
 //@   requires trip != nil && distinctUpdates(trip)
+//@   assigns trip.Vehicle, trip.Trip.DirectionId, trip.Trip.StartTime, each(trip.StopTimeUpdate).StopId
 //@   ensures [transparent-without-extension] !hasExt(old(trip.Trip), "E_NyctTripDescriptor") ==> !result.ShouldSkip && (trip.Trip != nil ==> *trip.Trip == old(*trip.Trip)) && trip.Vehicle == old(trip.Vehicle)
 //@   ensures [direction] hasExt(old(trip.Trip), "E_NyctTripDescriptor") ==> trip.Trip.DirectionId != nil && *trip.Trip.DirectionId == (dirIsNorth(nyctDesc(trip.Trip)) ? 0 : 1)
 //@   ensures [train-id-is-vehicle-id] hasExt(old(trip.Trip), "E_NyctTripDescriptor") && isAssigned(nyctDesc(trip.Trip)) ==> trip.Vehicle != nil && trip.Vehicle.Id != nil && *trip.Vehicle.Id == trainID(nyctDesc(trip.Trip))
